@@ -355,13 +355,16 @@ Definition mod_env_ok (E : menv) (m : modifier) (c : contact) : bool :=
 
 (* the channel pointer of every URN is the channel its raw form names: what reading the marshalled contact back
    (flows.ParseRawURN) produces; [chan_env_ok]: SetChannel writes the channel it is given into the raw URN (computable,
-   evaluated on every case of the correspondence run) *)
+   evaluated on every case of the correspondence run) and, since fix F3m, nothing else: scheme, path and display — the
+   URN's identity — stay exactly as stored (before, SetChannel re-normalized the whole URN) *)
 Definition chan_ok_b (E : menv) (c : contact) : bool :=
   forallb (fun x => optN_eqb (cu_chan x) (urn_channel E (cu_urn x))) (c_urns c).
 
 Definition chan_env_ok (E : menv) (m : modifier) (c : contact) : bool :=
   match m with
-  | MChannel ch => forallb (fun u => optN_eqb (urn_channel E (urn_set_channel E ch u)) ch) (raw_urns (c_urns c))
+  | MChannel ch => forallb (fun u => optN_eqb (urn_channel E (urn_set_channel E ch u)) ch
+                                     && N.eqb (urn_identity E (urn_set_channel E ch u)) (urn_identity E u))
+                           (raw_urns (c_urns c))
   | _ => true
   end.
 
